@@ -379,10 +379,18 @@ pub open spec fn ascii_bytes(s: Seq<u8>) -> bool { forall|i: int| 0 <= i < s.len
         },
 //@entry
         broadcast use axiom_chan_of_seq_writer;
+//@before 1 loop
+                // ghost: number of non-empty header lines read so far
+                let ghost mut nlines: int = 0;
 //@loop 1
                     invariant
                         self.prior_handed_off(), self.peer_known(),
                         self.closing() == old(self).closing(), self.sink_last() == old(self).sink_last(),
+                        // O-NOSKIP (C10, C16): every non-empty line of the head has become exactly one header (or ended the
+                        // request with an error): no line is skipped, none is entered twice
+                        headers@.len() == nlines,   // [C10,C16]
+//@after? 1 if line.is_empty()
+                    proof { nlines = nlines + 1; }
 //@after? 1 headers.push
                     // O-LINE-WS (C16): what is parsed as a header is the line itself, from its first byte (only trailing
                     // whitespace may have been removed): a line that begins with whitespace (obsolete folding) reaches the
